@@ -553,8 +553,13 @@ pub fn eval_undefined(c: &(crate::c14::Raw14, u8, u8)) -> CaseOutcome {
         at += 2;
     }
     lines.insert(at, stmt.clone());
+    // one file in three begins with one or two blank lines
+    let nblank = (*pos as usize / 6) % 3;
+    for _ in 0..nblank {
+        lines.insert(0, String::new());
+    }
     let text = crate::c14::text_of(&lines);
-    let want_line = at + 1;
+    let want_line = at + 1 + nblank;
     let out = run_cli(text.as_bytes(), Stdin::Closed, false, 1 << 20, 20_000);
     let replay = json!({"kind":"c16-undefined","source":text,"line":want_line,"column":ind.len()});
     if matches!(out.status, Status::Timeout | Status::SpawnError(_)) {
@@ -588,6 +593,80 @@ pub fn eval_undefined(c: &(crate::c14::Raw14, u8, u8)) -> CaseOutcome {
     }
 }
 
+/// (D2) a jump to an undefined label within the first bytes of a file without data, followed by uses of macros whose
+/// expansion is longer than the distance of that jump from the start of the file; leading blank lines and blanks
+fn early_undefined_family(ctx: &Ctx) {
+    use rayon::prelude::*;
+    let mut jobs: Vec<(String, usize, usize, String)> = Vec::new();
+    for nblank in [0usize, 1, 3] {
+        for ind in ["", "  ", "\t"] {
+            for explen in [3usize, 12, 60, 200] {
+                for (k, mn) in ["jmp", "jnz", "loop"].iter().enumerate() {
+                    for before in [0usize, 2] {
+                        let mut lines: Vec<String> = vec![String::new(); nblank];
+                        // the jump is on the same line as start, or a few short lines further down
+                        let stmt;
+                        if before == 0 {
+                            stmt = format!("{}start: {} nowhere_1", ind, mn);
+                            lines.push(stmt.clone());
+                        } else {
+                            lines.push("start: nop".to_string());
+                            lines.push("cld".to_string());
+                            stmt = format!("{}{} nowhere_1", ind, mn);
+                            lines.push(stmt.clone());
+                        }
+                        let want_line = lines.len();
+                        let body: String = (0..explen).map(|i| if i % 2 == 0 { "mov r, r " } else { "xchg r, r " }).collect();
+                        lines.push(format!("macro big_{}(r) -> {}<-", k, body));
+                        lines.push(format!("big_{}(ax)", k));
+                        lines.push(format!("  big_{}(bx)", k));
+                        lines.push("print reg".to_string());
+                        // the column is the one of the jump statement itself
+                        let col = if before == 0 { ind.len() + "start: ".len() } else { ind.len() };
+                        jobs.push((crate::c14::text_of(&lines), want_line, col, stmt));
+                    }
+                }
+            }
+        }
+    }
+    let outs: Vec<Option<Failure>> = jobs
+        .par_iter()
+        .map(|(text, want_line, col, stmt)| {
+            let out = run_cli(text.as_bytes(), Stdin::Closed, false, 1 << 20, 20_000);
+            let replay = json!({"kind":"c16-undefined","source":text,"line":want_line,"column":col});
+            if matches!(out.status, Status::Timeout | Status::SpawnError(_)) {
+                return None;
+            }
+            if !out.clean() {
+                return Some(Failure { key: "c16|undefined|abnormal-exit".into(), what: format!("status {:?}", out.status), replay });
+            }
+            let so = out.out_str();
+            match parse_syntax_error(&so) {
+                None => Some(Failure { key: "c16|undefined|not-reported".into(), what: format!("no undefined-label diagnostic with a position: {:?}", so.chars().take(160).collect::<String>()), replay }),
+                Some((l, c, t)) => {
+                    if l != *want_line || t.trim_end() != stmt.trim_end() {
+                        Some(Failure { key: "c16|undefined|wrong-line".into(), what: format!("[early jump, long macro expansions later] jump to an undefined label on line {} ('{}') reported at line {} ('{}')", want_line, stmt, l, t.trim_end()), replay })
+                    } else if c != *col {
+                        Some(Failure { key: "c16|undefined|wrong-column".into(), what: format!("[early jump, long macro expansions later] jump to an undefined label at line {} column {} reported at column {}", want_line, col, c), replay })
+                    } else {
+                        None
+                    }
+                }
+            }
+        })
+        .collect();
+    for o in outs {
+        ctx.add_evals(1);
+        match o {
+            Some(f) => ctx.fail(f),
+            None => {
+                ctx.add_nontrivial(1);
+                ctx.class("c16/undefined-label/early-in-a-file-with-long-expansions-later", 1);
+            }
+        }
+    }
+}
+
 pub fn run(ctx: &Ctx) {
     ctx.set_rule("(A) proptest-generated terminating programs (structured generator: loops, calls, procedures with implied and explicit ret, prints, data, INT 3, trap-flag sequences) extended with macro uses of nesting depth 1 and 2 at top level and inside procedures, rendered with random layouts (blank lines, comment lines, several statements per line, labels sharing a line, with/without trailing newline): every emitted instruction's source-map entry, converted with the driver's own get_err_pos, must give the line number and the exact bounds of the line of its statement (use site for macro-made instructions, closing brace for the implied ret); (B1) the same programs with one token replaced by ')' at a generated token position: the driver's preprocess() must report that line, that 0-based column and that line's text; (B2) the single semantic mutations of C14 whose offending statement is one known line (operand misuse, range, size, two memory operands, unsupported instruction / interrupt / directive, data after code, jump to data label): the diagnostic, in-process and through the CLI, must cite that line and its text; (C) through the CLI with -i or trap-flag stepping answered 'n': every 'Output of line', 'About to execute line', 'Int 3 at line', divide-error and unsupported-interrupt message must cite the line (and the text) of the statement the reference interpreter says is executing; (D) a jump to an undefined label at a live position or on the last line, with generated indentation: line, column and text. Non-trivial = the cited construct is not on line 1.");
     ctx.assume("for a duplicate definition either definition's line is acceptable (not checked here); a bare unknown word is detected by an LR parser only at the following token, possibly on the next line (not used as a mutant); message wording is not compared beyond line number, column and line text");
@@ -616,6 +695,7 @@ pub fn run(ctx: &Ctx) {
     run_cases(ctx, "c16-semantic-cli", n_s, || (crate::c14::raw_s(), any::<u16>(), Just(true)), eval_semantic, |_| json!("semantic mutant, CLI"));
     let n_d = ctx.tier.pick(150usize, 1_500usize);
     run_cases(ctx, "c16-undefined", n_d, || (crate::c14::raw_s(), any::<u8>(), any::<u8>()), eval_undefined, |_| json!("jump to an undefined label"));
+    early_undefined_family(ctx);
     for k in ["c16/runtime/print", "c16/runtime/about", "c16/runtime/int3", "c16/runtime/divide-error", "c16/runtime/unsupported-interrupt", "c16/runtime/no-trailing-newline", "c16/semantic/cli", "c16/undefined-label/last-line", "c16/undefined-label/macro-depth-1", "c16/undefined-label/macro-depth-2"] {
         ctx.require_class(k, 15);
     }
